@@ -7,5 +7,6 @@ CONSTANTS
   MutClasses <- MutNone
   PreOps <- PreNone
   SkipIfSignedAddr = FALSE
+  AddrBySigCount = FALSE
 INVARIANTS SameSignersUpToCanon CanonAgree SoundUpToDupKeys
 CHECK_DEADLOCK FALSE
